@@ -590,7 +590,7 @@ pub fn run(ctx: &mut Ctx) -> Result<(), Violation> {
     });
     ctx.stage("generated-graph-to-colouring-pipeline", false, r)?;
 
-    let cases = ctx.tier.pick(1_000, 60_000);
+    let cases = ctx.tier.cases(1_000, 60_000);
     let r = par_random(ctx, "random-requests", cases, 120, |tape, st| {
         let mut t = Tape::new(tape);
         let c = match t.choose(4) {
